@@ -41,10 +41,13 @@ pub fn small_program(s: &mut Src) -> Program {
 struct Baseline {
     ops: Vec<ReadOp>,
     outs: Vec<OpOut>,
+    header: String,
 }
 
-fn results(bytes: &[u8], free: &[(u64, u64)], ops: Option<&[ReadOp]>) -> Result<(Vec<ReadOp>, Vec<OpOut>), String> {
+fn results(bytes: &[u8], free: &[(u64, u64)], ops: Option<&[ReadOp]>) -> Result<(Vec<ReadOp>, Vec<OpOut>, String), String> {
     let mut rd = E57Reader::new(MemDev::with_data(bytes.to_vec())).map_err(|e| e.to_string())?;
+    let hd = rd.header();
+    let header = format!("signature {:?} version {}.{} physical length {} XML at {} length {} page size {}", hd.signature, hd.major, hd.minor, hd.phys_length, hd.phys_xml_offset, hd.xml_length, hd.page_size);
     let ops: Vec<ReadOp> = match ops {
         Some(o) => o.to_vec(),
         None => {
@@ -53,7 +56,7 @@ fn results(bytes: &[u8], free: &[(u64, u64)], ops: Option<&[ReadOp]>) -> Result<
         }
     };
     let outs = ops.iter().map(|op| run_op(&mut rd, op, free)).collect();
-    Ok((ops, outs))
+    Ok((ops, outs, header))
 }
 
 fn cuts(len: usize, all: bool) -> Vec<usize> {
@@ -79,7 +82,7 @@ impl Check for C15 {
          recording device; the crash images enumerated are ALL prefixes of the sequence of device write operations x cut positions inside the cut \
          operation (all of bytes 0..64, the last 8 bytes, every 4th byte elsewhere; thorough: every byte). For each image accepted by \
          E57Reader::new: it must stem from after the entry into the top-level finalize, list the same point clouds and images as the completed file, \
-         and every read operation (XML, descriptors, raw and simple iteration of every cloud, every blob) must fail or return exactly the completed \
+         report the completed file's header fields, and every read operation (XML, descriptors, raw and simple iteration of every cloud, every blob) must fail or return exactly the completed \
          file's result. 1 in 6 programs runs on a reused device that still holds an older complete file (cursor at 0): the writer either refuses \
          the device without touching it or every image (old content overlaid with the new writes) obeys the same rule. `evaluations` counts programs, `executions_of_code_under_test` counts crash images. Non-trivial: program whose image set \
          contains a cut inside the final header-patch write, or an accepted incomplete image, or a reused device."
@@ -90,6 +93,26 @@ impl Check for C15 {
     }
     fn budget(t: Tier) -> usize {
         t.pick(600, 15_000)
+    }
+    fn fixed(t: Tier) -> Vec<Case> {
+        // the end of the XML section swept through every residue modulo the page payload (file GUID padded by k characters)
+        let mut s = Src::from_seed(0xC15);
+        let base = loop {
+            let p = small_program(&mut s);
+            if p.end == End::Finalize && p.ops.iter().any(|o| matches!(o, prog::Op::Cloud(_))) && p.ops.len() <= 3 {
+                break p;
+            }
+        };
+        (0..1020usize)
+            .map(|k| {
+                let mut p = base.clone();
+                p.guid = format!("{{sweep-{}}}", "g".repeat(k));
+                Case { program: p, all_cuts: t == Tier::Thorough, old: None }
+            })
+            .collect()
+    }
+    fn describe_fixed(_t: Tier) -> Option<String> {
+        Some("one small program with its file GUID padded by 0..1019 characters: the XML section ends at every offset within a page".into())
     }
     fn gen(s: &mut Src, t: Tier) -> Case {
         let mut program = small_program(s);
@@ -162,7 +185,7 @@ impl Check for C15 {
         let completed = st.data.clone();
         let baseline = if tr.finalized {
             match guard(|| results(&completed, &free, None)) {
-                Ok(Ok((ops, outs))) => Some(Baseline { ops, outs }),
+                Ok(Ok((ops, outs, header))) => Some(Baseline { ops, outs, header }),
                 Ok(Err(e)) => {
                     v.fail(format!("the completed file is rejected by the reader: {e}"));
                     return v;
@@ -202,7 +225,7 @@ impl Check for C15 {
                         return v;
                     }
                     Ok(Err(_)) => {}
-                    Ok(Ok((_, outs))) => {
+                    Ok(Ok((_, outs, header))) => {
                         if before_finalize {
                             v.fail(format!("crash image from before the top-level finalize call (write {k} of {nw} cut after {c} bytes) is accepted by the reader"));
                             v.execs = images;
@@ -210,6 +233,11 @@ impl Check for C15 {
                         }
                         v.nt("incomplete_image_accepted");
                         if let Some(b) = &baseline {
+                            if header != b.header {
+                                v.fail(format!("accepted crash image (write {k} of {nw} cut after {c} bytes) reports the file header [{header}], the completed file has [{}]", b.header));
+                                v.execs = images;
+                                return v;
+                            }
                             for (i, (o, bo)) in outs.iter().zip(b.outs.iter()).enumerate() {
                                 let r = if i < 2 {
                                     // XML and descriptor lists must be those of the completed file
